@@ -117,6 +117,9 @@ func c07Run(c jCase) (V, Verdict) {
 			}
 		}
 	}
+	if sig, what := log.projFailure(); sig != "" && v.OK {
+		v = Fail(sig, what)
+	}
 	if v.OK {
 		v.NonTrivial = answers >= 1 && maxSecs >= 2
 		v.Class = fmt.Sprintf("peers%d/answers%d/maxoffered%d/special%d", c.Peers, min(answers, 3), min(maxSecs, 5), min(special, 2))
